@@ -40,6 +40,18 @@ type PartOpt struct {
 type histCase[C any] struct {
 	History []C `json:"_history"`
 	Case    *C  `json:"_case"`
+	// Bystander: the failure shows only when another environment (another emulator instance) has been created
+	// after the one the case runs on, i.e. through state shared between instances of one process.
+	Bystander bool `json:"_bystander,omitempty"`
+}
+
+// runBystander executes c on a fresh environment after a second environment has been created.
+func runBystander[C any, E any](check func(l *Local, env E, c C) *Fail, newEnv func() E, c C) *Fail {
+	env := newEnv()
+	other := newEnv()
+	_ = other
+	l := &Local{outcomes: map[uint64]struct{}{}}
+	return safely(check, l, env, c)
 }
 
 // runHist executes hist then c on one fresh environment; only the result of c counts.
@@ -110,6 +122,13 @@ func panicSite() string {
 func Product[C any, E any](r *Report, name string, opt PartOpt, gen func(yield func(C) bool), newEnv func() E, check func(l *Local, env E, c C) *Fail) {
 	Replayers[name] = func(raw json.RawMessage) (*Fail, error) {
 		var hc histCase[C]
+		if err := json.Unmarshal(raw, &hc); err == nil && hc.Case != nil && hc.Bystander {
+			f := runBystander(check, newEnv, *hc.Case)
+			if f != nil {
+				f.Msg = "with a second emulator instance created afterwards in the same process: " + f.Msg
+			}
+			return f, nil
+		}
 		if err := json.Unmarshal(raw, &hc); err == nil && hc.Case != nil {
 			f := runHist(check, newEnv, hc.History, *hc.Case)
 			if f != nil {
@@ -273,6 +292,22 @@ func Product[C any, E any](r *Report, name string, opt PartOpt, gen func(yield f
 						if k == len(fc.hist) {
 							break
 						}
+					}
+				}
+				if histArt == nil && i == 0 && f2 == nil {
+					// or it needs another instance alive in the process (workers run side by side): state shared between instances
+					ok := true
+					for j := 0; j < 5; j++ {
+						f3 := runBystander(check, newEnv, fc.c)
+						if f3 == nil || f3.Sig != fc.f.Sig {
+							ok = false
+							break
+						}
+					}
+					if ok {
+						c := fc.c
+						histArt = &histCase[C]{Case: &c, Bystander: true}
+						fc.f.Msg = "with a second emulator instance created afterwards in the same process: " + fc.f.Msg
 					}
 				}
 				if histArt == nil {
